@@ -18,6 +18,11 @@ Property (always on, judged on the real code by the Lean *specification*, not by
 
 The socket's receive queue is part of the history: the datagrams of a step's script that the request did not
 read are still in the (fake) socket when the next request starts (harness/sim/transport04.py).
+
+"All sequences of requests on one interface object" includes the requests that `establish_session` and `close_session`
+make: a step of a case is a plain request or one of these operations (`{'establish': {...}, 'scripts': [...]}` /
+`{'close': 1, 'scripts': [...]}`), whose requests are observed INSIDE the real call (T.run_rmcp_op) and judged and
+compared with the model one by one (`flatten`), late replies to requests from before the operation included.
 """
 import itertools
 
@@ -49,7 +54,22 @@ RULE = ('RMCP: every ordering up to length 4 (thorough: 5, then 6 while time rem
         'short frames), sessions in which is_ipmc_accessible probes are requests like the others (directed: request, '
         'late reply, probe) and in which every fifth request / probe names a target with a routing of 1..4 hops '
         '(directed: [request,] routed request or probe with the reply of the local owner of that address ready, then a '
-        'request whose reply arrives - a refused request must leave no trace).  A case is distinct by (transport, configuration, state, requests, scripts); non-trivial = at '
+        'request whose reply arrives - a refused request must leave no trace).  SESSION OPERATIONS among the requests '
+        '(RMCP): establish_session and close_session on the same Rmcp object between plain requests - every request they '
+        'make (Get Channel Authentication Capabilities, Get Session Challenge, Activate Session, Set Session Privilege '
+        'Level, Close Session) is observed inside the real call and judged and compared with the model like any other: '
+        'directed histories [a handshake that fails at request 1..4: silence within the budget, an error completion code, '
+        'an unanswered presence ping] -> establish_session again (other privilege level, other authentication types '
+        'offered: none / MD5 / password) while the LATE reply to the unanswered request, and to other requests of the '
+        'first attempt, arrives after request 1..4 of the new handshake was sent -> request, close_session, sessionless '
+        'request, each with a late reply from before; a request that times out followed by a handshake during which its '
+        'reply arrives; close and open again, two opens without a close, close twice; start counters 0, 7, 31, 59..63 (the '
+        'wrap inside a handshake) x max_retries 0..2; seeded random histories of 2-7 operations with up to max_retries '
+        '(sometimes one more) late replies to any of the last five requests in front of an answer.  The harness knows '
+        'which frames answer EARLIER requests (checked against the bytes that really went over the wire): data of such a '
+        'frame returned is a violation although its header passes the filter; consecutive requests on the wire are compared '
+        'across and inside the operations; the state a request starts from (next_sequence_number, _q) is compared with the '
+        'state the request before it left.  A case is distinct by (transport, configuration, state, requests, scripts); non-trivial = at '
         'least one event.')
 ASSUMPTIONS = [
     'the step functions of the loop models (lean/PyIpmi/Model/RmcpLoop.lean: rmcpRequest/outer/inner/nextQ/nextSock/'
@@ -73,8 +93,23 @@ ASSUMPTIONS = [
     'is counted in Gen.Loops04.notExtracted and breaks gen_loop_shape and the translator tie)',
     'receive events are given: real socket timing, OS buffering and datagram loss are outside the model; wall-clock '
     'time of ipmb-dev/Aardvark is a virtual clock in 1/64 s ticks carried by the events',
-    'the RMCP/IPMI-session wrapper is exercised only without a session (authentication none); packing and '
-    'authentication are C05/C06',
+    'the RMCP/IPMI-session wrapper: plain requests run without a session or inside the sessions the generated '
+    'establish_session calls opened (authentication none / MD5 / password, as the scripted BMC offers); packing and '
+    'authentication are C05/C06 - this check looks at the IPMB frame inside the datagram only, and the scripted BMC '
+    'answers without an authentication code (the library does not verify inbound authentication)',
+    'establish_session / close_session are modelled as the requests they make (lean/PyIpmi/Model/RmcpOps.lean: the '
+    'presence ping is an arbitrary function of the socket content, the handshake a prefix of its requests); that they '
+    'reach next_sequence_number / _q in no other way is READ from the three modules on every run (harness/translate/'
+    'loops04.py part 3 -> Gen/IfaceState04.lean; Props.C04.source_state_writers: a store to an attribute of that name '
+    'outside __init__ / _inc_sequence_number, a call of _inc_sequence_number outside the request functions, a mention of '
+    '_q outside __init__ / _send_and_receive or attribute access by computed name stops the theorem from building) and '
+    'checked on the real objects (state between two requests); the handshake answers are built from IPMI v1.5 '
+    '18.12-18.17; the order and content of the handshake itself are C06',
+    'OBSERVATION, not judged (no request is made, the caller gets an error): Rmcp.ping() reads the socket without '
+    'discarding what earlier requests left there - establish_session on an interface whose last request left a datagram '
+    'unread (its reply arrived behind more late frames than the budget tolerates) fails once with DecodingError before '
+    'its first request, and the pong stays in the socket for the next drain; generated and counted '
+    '(op:establish_session:0-requests:DecodingError), in the model a ping that fails',
     'the reply that counts for a bridged request is the innermost embedded message of a received datagram whose '
     'Send Message envelopes are all INTACT (both checksums, netFn 07h, command 34h): data out of a damaged envelope '
     'is a violation of the attribution clause (Spec.Attribution.Carries true)',
@@ -288,7 +323,13 @@ def run_real(case):
         iface = T.make_rmcp(max_retries=c['mr'], ignore_rq_seq=bool(c.get('igs')),
                             ignore_sdu_length=bool(c.get('igl')))
         iface.next_sequence_number = case['seq0']
+        session = None
         for st in case['steps']:
+            if 'req' not in st:
+                # establish_session / close_session: an operation that makes requests (T.run_rmcp_op observes each)
+                session = session or T.make_session()
+                res.append(T.run_rmcp_op(iface, session, st))
+                continue
             pre_seq, pre_q = iface.next_sequence_number, T.rmcp_queue(iface)
             r = T.run_rmcp(iface, st['req'], st['events'])
             r['pre_seq'], r['pre_q'] = pre_seq, pre_q
@@ -323,12 +364,54 @@ def _step_req(st):
     return st['req']
 
 
+def is_op(st):
+    return 'establish' in st or 'close' in st
+
+
+def op_name(st):
+    return 'establish_session' if 'establish' in st else 'close_session' if 'close' in st else None
+
+
+def flatten(case, res):
+    """-> [(index of the step, step-like dict of ONE request, its observation)]: the requests on the wire in order.  A
+    plain step is one request; establish_session / close_session contribute the requests they made (the request as the
+    code made it, the script that was played to it, the frames of that script that are late replies)."""
+    out = []
+    for si, (st, r) in enumerate(zip(case['steps'], res)):
+        if not is_op(st):
+            out.append((si, st, r))
+            continue
+        kinds = st.get('kinds') or []
+        for k, ir in enumerate(r['inner']):
+            out.append((si, {'req': ir['req'], 'events': ir['events'], 'kinds': kinds[k] if k < len(kinds) else [],
+                             'late': (st.get('late') or [])[k] if k < len(st.get('late') or []) else [],
+                             'op': op_name(st), 'k': k}, ir))
+    # a frame counts as "late reply to an earlier request" only if an EARLIER request that really went over the wire
+    # (one of the 63 before this one) carries the header this frame answers - whatever the generator meant it to be
+    for i, (_si, st, _r) in enumerate(out):
+        if st.get('late'):
+            earlier = [o[2]['tx'][0] for o in out[max(0, i - 63):i] if o[2].get('tx') and o[2]['tx'][0]]
+            ok = [f for f in st['late'] if any(_answers(f, t) for t in earlier)]
+            if ok != st['late']:
+                out[i] = (out[i][0], dict(st, late=ok), out[i][2])
+    return out
+
+
+def _answers(fhex, tx):
+    """the header of frame `fhex` is that of a response to the request frame `tx` (IPMI v1.5 figure 7-3 / 7-4)"""
+    f = bytes.fromhex(fhex)
+    return (len(f) >= 7 and len(tx) >= 7 and f[0] == tx[3] and f[3] == tx[0] and f[1] >> 2 == (tx[1] >> 2) + 1
+            and f[4] >> 2 == tx[4] >> 2 and f[4] & 3 == tx[1] & 3 and f[5] == tx[5] and f[1] & 3 == tx[4] & 3)
+
+
 def _hexq(q):
     return ','.join(lean.hexs(x) for x in q) if q else '-'
 
 
 def _evs(events):
-    return [e[0] if e[0] in 'TM' else e[0] + (e[1] or '-') for e in events]
+    # (a presence pong that was not read by the ping it answers is, for a request, a datagram that is no IPMI message
+    # - like 'M' it ends the request with DecodingError when it is read)
+    return ['M' if e[0] == 'P' else e[0] if e[0] in 'TM' else e[0] + (e[1] or '-') for e in events]
 
 
 def bridged_of(req, seq, tr='rmcp'):
@@ -416,9 +499,10 @@ class Judge(object):
         pend, self.pending = self.pending, []
         lines, slots = [], []
         need_cls = {}
+        flats = [flatten(case, res) for case, res in pend]
         for ci, (case, res) in enumerate(pend):
             cs = 0 if (case['transport'] == 'rmcp' and case['cfg'].get('igs')) else 1
-            for si, (st, r) in enumerate(zip(case['steps'], res)):
+            for si, (_osi, st, r) in enumerate(flats[ci]):
                 lines.append(model_line(case, st, r, self.variant))
                 slots.append(('model', ci, si))
                 req = _step_req(st)
@@ -429,6 +513,12 @@ class Judge(object):
                     recv = [lean.hexs(x) for x in r['pre_q']] + [f or '-' for f in _frames_seen(case, st, r)]
                     lines.append('oracle %d %d %d %d %d %s' % (cs, rid[0], rid[1], rid[2], rid[3], ' '.join(recv)))
                     slots.append(('oracle', ci, si))
+                    late = st.get('late') or []
+                    if late and any(f in late for f in recv):
+                        # the same question without the frames that are replies to EARLIER requests
+                        lines.append('oracle %d %d %d %d %d %s' % (cs, rid[0], rid[1], rid[2], rid[3],
+                                                                   ' '.join(f for f in recv if f not in late)))
+                        slots.append(('oracle-nolate', ci, si))
                 fhs = [e[1] if case['transport'] == 'rmcp' else e[2] for e in st['events'] if e[0] == 'F']
                 if r['out'][0].startswith('CompletionCodeError') and case['transport'] == 'rmcp':
                     fhs += _frames_seen(case, st, r)
@@ -440,27 +530,49 @@ class Judge(object):
             lines.append('classify ' + k)
             slots.append(('cls', k, None))
         answers = self.drv.ask_many(lines)
-        model, oracle = {}, {}
+        model, oracle, nolate = {}, {}, {}
         for (kind, a, b), ans in zip(slots, answers):
             if kind == 'model':
                 model[(a, b)] = ans
             elif kind == 'oracle':
                 oracle[(a, b)] = ans
+            elif kind == 'oracle-nolate':
+                nolate[(a, b)] = ans
             else:
                 self.cls_cache[a] = _parse_cls(ans)
         for ci, (case, res) in enumerate(pend):
-            self._judge_case(case, res, model, oracle, ci)
+            self._judge_case(case, res, model, oracle, ci, flats[ci], nolate)
         if len(self.cls_cache) > 400000:
             self.cls_cache.clear()
 
-    def _judge_case(self, case, res, model, oracle, ci):
+    def _judge_case(self, case, res, model, oracle, ci, flat, nolate):
         ctx = self.ctx
         tr = case['transport']
-        nev = sum(len(s['events']) for s in case['steps'])
+        nev = sum(len(st['events']) for _o, st, _r in flat)
         ctx.case(_case_key(case), nontrivial=nev > 0)
         ctx.count('transport:' + tr)
-        ctx.count('requests_per_case:%d' % len(case['steps']))
-        for si, (st, r) in enumerate(zip(case['steps'], res)):
+        ctx.count('requests_per_case:%d' % min(len(flat), 12))
+        for st, r in zip(case['steps'], res):
+            if is_op(st):
+                ctx.count('op:%s:%d-requests:%s' % (op_name(st), len(r['inner']), r['out'][0].split(':')[0]))
+        prev = None
+        for si, (osi, st, r) in enumerate(flat):
+            # ---------- tie: nothing but a request changes the state the requests share (Loops.runOps: establish_session,
+            # close_session and the presence ping touch neither next_sequence_number nor _q)
+            if prev is not None and (r['pre_seq'] != prev['seq'] or
+                                     ('queue' in prev and r['pre_q'] != prev['queue'])):
+                ctx.disagree('%s interface state between two requests%s' % (tr, ' (inside / before %s)' % st['op'] if st.get('op') else ''),
+                             _mini(case, osi),
+                             'next_sequence_number=%d _q=%s (as the previous request left them)' % (
+                                 prev['seq'], _hexq(prev.get('queue') or [])),
+                             'next_sequence_number=%d _q=%s' % (r['pre_seq'], _hexq(r['pre_q'])))
+            prev = r
+            if st.get('op'):
+                ctx.count('request:inside-%s:cmd-%02xh:%s' % (st['op'], st['req']['cmd'], r['out'][0].split(':')[0]))
+                if any(f in (st.get('late') or []) for f in _frames_seen(case, st, r)):
+                    ctx.count('late-reply-read:inside-%s' % st['op'])
+            elif any(f in (st.get('late') or []) for f in _frames_seen(case, st, r)):
+                ctx.count('late-reply-read:plain-request')
             ctx.count('outcome:%s:%s' % (tr, r['out'][0].split(':')[0]))
             ctx.count('script_len:%d' % min(len(st['events']), 9))
             if 'probe' in st:
@@ -481,23 +593,21 @@ class Judge(object):
             m = model.get((ci, si))
             code = real_line(case, r)
             if m is not None and m != code:
-                ctx.disagree('%s request %d' % (tr, si), _mini(case, si), m, code)
+                ctx.disagree('%s request %d' % (tr, si), _mini(case, osi), m, code)
             if tr != 'rmcp' and 'probe' not in st:
                 fails = len(r['tx']) - (0 if r['out'][0] == 'IpmiTimeoutError' else 1)
                 want = [0.2 * (i + 1) for i in range(fails)]
                 if len(r['sleeps']) != len(want) or any(abs(a - b) > 1e-9 for a, b in zip(r['sleeps'], want)):
-                    ctx.disagree('%s sleep schedule' % tr, _mini(case, si), repr(want), repr(r['sleeps']))
+                    ctx.disagree('%s sleep schedule' % tr, _mini(case, osi), repr(want), repr(r['sleeps']))
             # ---------- property
-            for v in judge_step(case, si, st, r, oracle.get((ci, si)), self._cls):
-                ctx.violate(v[0], v[1], _mini(case, si), expected=v[2], observed=v[3])
+            for v in judge_step(case, si, st, r, oracle.get((ci, si)), self._cls, nolate.get((ci, si))):
+                ctx.violate(v[0], v[1], _mini(case, osi), expected=v[2], observed=v[3])
             # P2 on the wire itself (independent of where the interface keeps its counter): the innermost
             # request frame of this step must not carry the sequence number of the previous step's frame,
             # whatever the outcome of the previous request was
             ws = _wire_seq(r)
-            if si > 0 and ws is not None and ws == _wire_seq(res[si - 1]):
-                ctx.violate((SIG_SEQ % tr) + (':is_ipmc_accessible' if 'probe' in st else ''),
-                            'two consecutive requests carry the same sequence number on the wire (previous request '
-                            'ended with %s)' % res[si - 1]['out'][0], _mini(case, si),
+            if si > 0 and ws is not None and ws == _wire_seq(flat[si - 1][2]):
+                ctx.violate(_sig_wire(tr, st), _what_wire(flat, si), _mini(case, osi),
                             expected='sequence != %d' % ws, observed='sequence %d' % ws)
 
     def _cls(self, cs, rid, br, fhex):
@@ -505,6 +615,22 @@ class Judge(object):
         if k not in self.cls_cache:
             self.cls_cache[k] = _parse_cls(self.drv.ask('classify ' + k))
         return self.cls_cache[k]
+
+
+def _sig_wire(tr, st):
+    return (SIG_SEQ % tr) + (':is_ipmc_accessible' if 'probe' in st else '') + \
+        (':' + st['op'] if st.get('op') else '')
+
+
+def _what_wire(flat, si):
+    _o, st, r = flat[si]
+    _po, pst, pr = flat[si - 1]
+
+    def where(s):
+        return ('request %d of %s' % (s['k'] + 1, s['op'])) if s.get('op') else \
+            'is_ipmc_accessible' if 'probe' in s else 'a plain request'
+    return ('two consecutive requests carry the same sequence number on the wire: %s (cmd %02xh, ended with %s), then %s '
+            '(cmd %02xh)' % (where(pst), _step_req(pst)['cmd'], pr['out'][0], where(st), _step_req(st)['cmd']))
 
 
 def _parse_cls(ans):
@@ -526,7 +652,7 @@ def _doubly_damaged(fhex):
     return len(f) >= 7 and sum(f[:3]) % 256 != 0 and sum(f[3:]) % 256 != 0 and sum(f) % 256 == 0
 
 
-def judge_step(case, si, st, r, oracle_ans, cls):
+def judge_step(case, si, st, r, oracle_ans, cls, nolate_ans=None):
     """Property clauses on one request of the real code.  -> [(signature, what, expected, observed)]."""
     tr = case['transport']
     out = []
@@ -564,6 +690,15 @@ def judge_step(case, si, st, r, oracle_ans, cls):
                 what += (' (it is the data of a frame whose header checksum AND payload checksum are both invalid, by '
                          'amounts that cancel modulo 256: the frame as a whole adds up to zero)')
             out.append((sig, what, 'one of %s or an error' % (allowed or 'none'), got))
+        elif nolate_ans is not None and got not in nolate_ans.split()[1:]:
+            # the header fields of a reply cannot tell it from the late reply to an EARLIER request that carried the same
+            # sequence number: the harness knows which frames the reference BMC produced for earlier requests
+            out.append(((SIG_ATTR % tr) + ':late-reply' + (':' + st['op'] if st.get('op') else ''),
+                        'the data of the late reply to an EARLIER request is returned as the answer (that request carried '
+                        'the same sequence number %d%s)' % (rid[3], ', cmd %02xh inside %s' % (req['cmd'], st['op'])
+                                                            if st.get('op') else ''),
+                        'the reply to this request (%s) or an error' % (' / '.join(nolate_ans.split()[1:]) or 'none received yet'),
+                        got))
     if r['out'][0] == 'ok' and probe:
         # "accessible" must rest on an intact reply to THIS probe (its own sequence number) among the frames read
         frames = _frames_seen(case, st, r)
@@ -668,13 +803,15 @@ def progress_expectation(case, st, rid, br, cs, cls):
 
 def _case_key(case):
     return (case['transport'], tuple(sorted(case['cfg'].items())), case['seq0'],
-            tuple((tuple(sorted((k, str(v)) for k, v in _step_req(s).items())), 'probe' in s, str(s['events']))
+            tuple((op_name(s), str(s.get('establish')), str(s.get('scripts')), s.get('ping')) if is_op(s) else
+                  (tuple(sorted((k, str(v)) for k, v in _step_req(s).items())), 'probe' in s, str(s['events']))
                   for s in case['steps']))
 
 
 def _mini(case, upto):
     c = dict(case)
-    c['steps'] = [dict((k, s[k]) for k in ('req', 'probe', 'routing', 'events') if k in s) for s in case['steps'][:upto + 1]]
+    c['steps'] = [dict((k, s[k]) for k in ('req', 'probe', 'routing', 'events', 'establish', 'close', 'scripts', 'ping',
+                                           'late') if k in s) for s in case['steps'][:upto + 1]]
     return c
 
 
@@ -849,6 +986,219 @@ def gen_rmcp_sessions(ctx, judge, rng, n):
             pre = (pre + 1) % 64
         judge.add({'transport': 'rmcp', 'cfg': cfg, 'seq0': seq0, 'steps': steps})
         ctx.count('gen:rmcp-session')
+
+
+# =============================================================== session operations among the requests
+# establish_session / close_session are operations on the interface object whose requests (Get Channel Authentication
+# Capabilities 38h, Get Session Challenge 39h, Activate Session 3Ah, Set Session Privilege Level 3Bh, Close Session 3Ch,
+# all App / LUN 0 to the BMC) share next_sequence_number, _q and the socket with every other request.
+HS_CMDS = [0x38, 0x39, 0x3a, 0x3b]
+CAPS = [0x01, 0x04, 0x10, 0x05, 0x11, 0x15]      # authentication types offered (none / MD5 / password combinations)
+
+
+def hs_req(cmd):
+    return {'rs_sa': 0x20, 'netfn': 6, 'lun': 0, 'cmd': cmd, 'payload': ''}
+
+
+def bmc_answer(cmd, priv, caps, tag):
+    """completion code + data of the BMC's answer (IPMI v1.5 18.12-18.17); `tag` makes the answers of different
+    requests for the same command different"""
+    tag &= 0xff
+    if cmd == 0x38:     # channel, authentication type support, status, reserved, OEM id (3), OEM auxiliary
+        return bytes([0, 1, caps, 0, 0, 0, 0, 0, tag])
+    if cmd == 0x39:     # temporary session id, challenge string
+        return bytes([0, tag, 0x10, 0x20, 0x30]) + bytes((tag + i) & 0xff for i in range(16))
+    if cmd == 0x3a:     # authentication type for the rest of the session, session id, initial inbound seq, privilege
+        auth = 2 if caps & 4 else 4 if caps & 0x10 else 0
+        return bytes([0, auth, tag, 0x77, 0x66, 0x55, 1 + tag % 5, 0, 0, 0, priv])
+    if cmd == 0x3b:
+        return bytes([0, priv])
+    return bytes([0])
+
+
+class Hist(object):
+    """builds one case: a sequence of plain requests and session operations on one Rmcp object, remembering every
+    request made so far (request, sequence number it was sent with when the counter is never reset, the BMC's answer)
+    so that LATE replies to them can be delivered during later requests"""
+
+    def __init__(self, seq0, mr):
+        self.seq0, self.pre, self.mr = seq0, seq0, mr
+        self.steps, self.made = [], []
+        self.has_session, self.activated = False, False
+        self.unread = []            # what the last request / ping left unread in the socket ('F' frames, 'P' pongs)
+
+    def case(self):
+        return {'transport': 'rmcp', 'cfg': {'mr': self.mr, 'igs': 0, 'igl': 0}, 'seq0': self.seq0, 'steps': self.steps}
+
+    def late_of(self, i):
+        m = self.made[i]
+        return _reply(m['req'], m['seq'], 0x81, m['data']).hex()
+
+    def _script(self, req, data, late, mode):
+        """-> (events, kinds, the request returns data).  mode: 'ok' the reply arrives | 'silent' nothing but the late
+        frames | 'retry-ok' one time-out, then the reply | ('cc', code) the reply carries an error completion code"""
+        seq = (self.pre + 1) % 64
+        self.pre = seq
+        evs = [['F', f] for f in late]
+        kinds = ['late'] * len(late)
+        if isinstance(mode, tuple):
+            data = bytes([mode[1]])
+        self.made.append({'req': req, 'seq': seq, 'data': data})
+        # (the stale datagrams are discarded before the request is sent; a round of the receive loop reads at most
+        # max_retries + 1 frames that are not its reply)
+        over = len(late) > self.mr
+        self.unread = ['F'] * (len(late) - self.mr - 1) if over else []
+        if mode == 'silent':
+            return evs + [['T']] * (self.mr + 1), kinds + ['T'] * (self.mr + 1), False
+        rf = ['F', _reply(req, seq, 0x81, data).hex()]
+        if over:
+            self.unread.append('F')
+        if mode == 'retry-ok' and self.mr >= 1:
+            return evs + [['T'], rf], kinds + ['T', 'match'], not over
+        return evs + [rf], kinds + ['match'], not over
+
+    def request(self, req, data, late=(), mode='ok'):
+        evs, kinds, _ok = self._script(req, data, list(late), mode)
+        self.steps.append({'req': req, 'events': evs, 'kinds': kinds, 'late': list(late)})
+
+    def establish(self, priv, caps, tag, modes=('ok', 'ok', 'ok', 'ok'), late=None, ping='pong'):
+        """modes[k] / late[k]: what happens to request k of the handshake; it stops at the first request that fails"""
+        late = late or {}
+        scripts, kindss, lates = [], [], []
+        self.has_session, self.activated = False, False
+        # the presence ping reads the OLDEST unread datagram: anything but a pong ends the attempt before its first request
+        if ping == 'pong':
+            self.unread.append('P')
+        ponged = bool(self.unread) and self.unread.pop(0) == 'P'
+        if ponged:
+            for k, cmd in enumerate(HS_CMDS):
+                lk = list(late.get(k, ()))
+                evs, kinds, ok = self._script(hs_req(cmd), bmc_answer(cmd, priv, caps, tag + k), lk, modes[k])
+                scripts.append(evs)
+                kindss.append(kinds)
+                lates.append(lk)
+                if not ok or isinstance(modes[k], tuple):
+                    break
+                if k == 1:
+                    self.has_session = True
+                if k == 2:
+                    self.activated = True
+        st = {'establish': {'priv': priv}, 'scripts': scripts, 'kinds': kindss, 'late': lates}
+        if ping != 'pong':
+            st['ping'] = ping
+        if not ponged:
+            st['ping-fails'] = 1
+        self.steps.append(st)
+
+    def close(self, late=(), mode='ok'):
+        scripts, kindss, lates = [], [], []
+        if self.has_session and self.activated:
+            evs, kinds, ok = self._script(hs_req(0x3c), bytes([0]), list(late), mode)
+            scripts, kindss, lates = [evs], [kinds], [list(late)]
+            if ok and not isinstance(mode, tuple):
+                self.activated = False
+        self.steps.append({'close': 1, 'scripts': scripts, 'kinds': kindss, 'late': lates})
+
+
+PLAIN_REQS = [{'rs_sa': 0x20, 'netfn': 6, 'lun': 0, 'cmd': 1, 'payload': ''},
+              {'rs_sa': 0x20, 'netfn': 6, 'lun': 0, 'cmd': 0x38, 'payload': '0e04'},
+              {'rs_sa': 0x20, 'netfn': 0x0a, 'lun': 0, 'cmd': 0x23, 'payload': '0000'},
+              {'rs_sa': 0x82, 'netfn': 0x2c, 'lun': 0, 'cmd': 0x34, 'payload': '00'}]
+
+
+def gen_rmcp_reestablish(ctx, judge):
+    """directed: a connection attempt fails at request `failk` of the handshake (no answer within the budget); the
+    application calls establish_session again on the same interface object (another privilege level, a BMC that offers
+    other authentication types for it); the LATE reply to the unanswered request - and to others of the first attempt -
+    arrives after request `j` of the new handshake has been sent (the drain before a request cannot remove it), in front
+    of the genuine reply; then a request, close_session and a sessionless request, each with a late reply from before."""
+    i = 0
+    for seq0 in (0, 63, 59, 7):
+        for mr in (0, 1, 2):
+            for failk in (0, 1, 2, 3):
+                for j in (0, 1, 2, 3):
+                    for nlate in sorted(set((1, mr))):
+                        i += 1
+                        h = Hist(seq0, mr)
+                        if i % 3 == 0:
+                            h.request(PLAIN_REQS[i % 4], bytes([0, i & 0xff]))
+                        modes = ['ok'] * 4
+                        modes[failk] = 'silent'
+                        first = len(h.made)
+                        h.establish(4, CAPS[i % len(CAPS)], 0x40 + i, modes)
+                        failed = len(h.made) - 1                    # the request that got no answer
+                        late = [h.late_of(failed)] + [h.late_of(first + (i + x) % (failed - first + 1)) for x in range(nlate - 1)]
+                        h.establish(2 + i % 3, CAPS[(i + 1) % len(CAPS)], 0x80 + i, ['ok'] * 4, {j: late[:nlate]})
+                        last = len(h.made) - 1
+                        h.request(PLAIN_REQS[(i + 1) % 4], bytes([0, 0xa0, i & 0xff]), [h.late_of(last)][:mr])
+                        h.close([h.late_of(failed)][:mr])
+                        h.request(PLAIN_REQS[(i + 2) % 4], bytes([0, 0xb0, i & 0xff]), [h.late_of(len(h.made) - 1)][:mr])
+                        judge.add(h.case())
+                        ctx.count('gen:rmcp-reestablish')
+    # a plain request that times out, its reply arrives during the handshake that follows; a session that is closed
+    # and opened again; two opens without a close in between
+    for seq0 in (0, 63, 62, 61, 60, 31):
+        for mr in (1, 2):
+            for j in (0, 1, 2, 3):
+                i += 1
+                h = Hist(seq0, mr)
+                h.request(PLAIN_REQS[i % 4], bytes([0, 0x11, i & 0xff]), mode='silent')
+                h.establish(4, CAPS[i % len(CAPS)], i, ['ok'] * 4, {j: [h.late_of(0)]})
+                h.request(PLAIN_REQS[(i + 1) % 4], bytes([0, 0x22]), [h.late_of(1 + j)])
+                if i % 2:
+                    h.close([h.late_of(len(h.made) - 1)])
+                h.establish(3, CAPS[(i + 2) % len(CAPS)], i + 9, ['ok', 'retry-ok', 'ok', 'ok'], {(j + 1) % 4: [h.late_of(1 + j)]})
+                h.request(PLAIN_REQS[(i + 2) % 4], bytes([0, 0x33]), [h.late_of(len(h.made) - 4)])
+                h.close()
+                h.close()
+                judge.add(h.case())
+                ctx.count('gen:rmcp-reopen')
+    # the presence ping is not answered / an error completion code ends the handshake: the next attempt starts where
+    # the counter stands
+    for seq0 in (0, 63):
+        for k in range(4):
+            i += 1
+            h = Hist(seq0, 1)
+            modes = ['ok'] * 4
+            modes[k] = ('cc', (0x81, 0xd4, 0xc1, 0xcc)[k])
+            h.establish(4, 0x01, i, modes)
+            h.establish(4, 0x01, i + 5, ['ok'] * 4, ping='lost')
+            h.establish(4, 0x04, i + 9, ['ok'] * 4, {0: [h.late_of(0)]})
+            h.request(PLAIN_REQS[0], bytes([0, 0x44]), [h.late_of(k)])
+            judge.add(h.case())
+            ctx.count('gen:rmcp-handshake-refused')
+
+
+def gen_rmcp_ops_random(ctx, judge, rng, n):
+    """seeded random histories of 2-7 operations {request, establish_session (un-faulted / silence or an error completion
+    code at a random request), close_session}, with up to `max_retries` (sometimes one more) late replies to any of the
+    last five requests in front of what a request is answered with"""
+    for _ in range(n):
+        h = Hist(rng.choice([0, 0, 1, 58, 60, 61, 62, 63, rng.randrange(64)]), rng.choice([0, 1, 1, 2, 3]))
+
+        def lates():
+            if not h.made or rng.random() < 0.35:
+                return []
+            k = rng.randrange(0, h.mr + 1) if rng.random() < 0.85 else h.mr + 1
+            return [h.late_of(rng.randrange(max(0, len(h.made) - 5), len(h.made))) for _x in range(k)]
+
+        for _k in range(rng.randrange(2, 8)):
+            r = rng.random()
+            if r < 0.4:
+                req = rng.choice(PLAIN_REQS) if rng.random() < 0.6 else _rand_req(rng, routing=False)
+                h.request(req, _data(rng) + bytes([len(h.made) & 0xff]), lates(),
+                          rng.choice(['ok', 'ok', 'ok', 'silent', 'retry-ok']))
+            elif r < 0.8:
+                modes = ['ok'] * 4
+                if rng.random() < 0.5:
+                    modes[rng.randrange(4)] = rng.choice(['silent', 'silent', 'retry-ok', ('cc', rng.choice([0x81, 0xc1, 0xd4, 0xcc]))])
+                late = dict((k, lates()) for k in range(4) if rng.random() < 0.5)
+                h.establish(rng.choice([2, 3, 4]), rng.choice(CAPS), rng.randrange(256), modes, late,
+                            'lost' if rng.random() < 0.05 else 'pong')
+            else:
+                h.close(lates(), rng.choice(['ok', 'ok', 'silent']))
+        judge.add(h.case())
+        ctx.count('gen:rmcp-ops-random')
 
 
 DT_PATTERNS = [(1, 1, 1, 1, 1, 1), (5, 5, 5, 5, 5, 5), (8, 7, 1, 1, 1, 1), (16, 1, 15, 1, 20, 3)]
@@ -1165,6 +1515,8 @@ def run(ctx):
         ctx.count('gen:corpus')
     gen_rmcp_leftovers(ctx, judge)
     gen_rmcp_bridging(ctx, judge, ctx.rng('c04-bridging'))
+    gen_rmcp_reestablish(ctx, judge)
+    gen_rmcp_ops_random(ctx, judge, ctx.rng('c04-ops'), 400 if quick else 8000)
     for tr in ('ipmbdev', 'aardvark'):
         gen_i2c_probes(ctx, judge, tr)
         gen_i2c_routed(ctx, judge, tr)
@@ -1215,6 +1567,8 @@ def search(ctx):
     try:
         gen_rmcp_leftovers(ctx, judge)
         gen_rmcp_bridging(ctx, judge, rng)
+        gen_rmcp_reestablish(ctx, judge)
+        gen_rmcp_ops_random(ctx, judge, rng, 1500)
         gen_rmcp_sessions(ctx, judge, rng, 3000)
         gen_rmcp_random(ctx, judge, rng, 3000)
         for tr in ('ipmbdev', 'aardvark'):
@@ -1248,31 +1602,46 @@ def replay(ctx, v):
     res = run_real(case)
     bad = False
     print('transport %s cfg %s seq0 %d' % (case['transport'], case['cfg'], case['seq0']))
-    for si, (st, r) in enumerate(zip(case['steps'], res)):
+    flat = flatten(case, res)
+    last_op = None
+    for si, (osi, st, r) in enumerate(flat):
+        if st.get('op') and last_op != osi:
+            last_op = osi
+            print(' step %d: %s(%s) -> %s' % (osi, st['op'], case['steps'][osi].get('establish') or '',
+                                              ' '.join(str(x) for x in res[osi]['out'])[:80]))
+        if si > 0 and (r['pre_seq'] != flat[si - 1][2]['seq']):
+            print('   (next_sequence_number was %d after the previous request and is %d now)' % (flat[si - 1][2]['seq'], r['pre_seq']))
         req = _step_req(st)
         rid = _req_id(req, (r['pre_seq'] + 1) % 64)
         cs = 0 if (case['transport'] == 'rmcp' and case['cfg'].get('igs')) else 1
-        oracle = None
+        oracle = nolate = None
         if r['out'][0] == 'ok' and 'probe' not in st:
             recv = [lean.hexs(x) for x in r['pre_q']] + [f or '-' for f in _frames_seen(case, st, r)]
             oracle = drv.ask('oracle %d %d %d %d %d %s' % (cs, rid[0], rid[1], rid[2], rid[3], ' '.join(recv)))
-        print(' request %d %s%s%s' % (si, 'is_ipmc_accessible ' if 'probe' in st else '', req,
+            late = st.get('late') or []
+            if late and any(f in late for f in recv):
+                nolate = drv.ask('oracle %d %d %d %d %d %s' % (cs, rid[0], rid[1], rid[2], rid[3],
+                                                               ' '.join(f for f in recv if f not in late)))
+        print(' request %d %s%s%s' % (si, 'is_ipmc_accessible ' if 'probe' in st else
+                                      ('[request %d of %s] ' % (st['k'] + 1, st['op'])) if st.get('op') else '', req,
                                       '  -> refused, nothing written' if refused(case['transport'], req, r) else ''))
         if case['transport'] == 'rmcp':
             print('   in the socket at the start: %s' % (r['pre_sock'] or 'nothing'))
         print('   arrives   %s' % st['events'])
         print('   real code %s' % real_line(case, r))
-        for sig, what, exp, obs in judge_step(case, si, st, r, oracle, judge._cls):
+        late_seen = [f for f in _frames_seen(case, st, r) if f in (st.get('late') or [])]
+        if late_seen:
+            print('   of these, late replies to earlier requests: %s' % late_seen)
+        for sig, what, exp, obs in judge_step(case, si, st, r, oracle, judge._cls, nolate):
             print('   VIOLATES %s: %s' % (sig, what))
             print('     expected %s' % exp)
             print('     observed %s' % obs)
             if sig == v.get('signature'):
                 bad = True
         ws = _wire_seq(r)
-        if si > 0 and ws is not None and ws == _wire_seq(res[si - 1]):
-            sig = (SIG_SEQ % case['transport']) + (':is_ipmc_accessible' if 'probe' in st else '')
-            print('   VIOLATES %s: same sequence number %d on the wire as the previous request (which ended with %s)'
-                  % (sig, ws, res[si - 1]['out'][0]))
+        if si > 0 and ws is not None and ws == _wire_seq(flat[si - 1][2]):
+            sig = _sig_wire(case['transport'], st)
+            print('   VIOLATES %s: %s' % (sig, _what_wire(flat, si)))
             if sig == v.get('signature'):
                 bad = True
     return bad
